@@ -85,7 +85,9 @@ def _direct_spec(r, kinds):
         spec["width"], spec["depth"] = r.choice([2, 3]), r.choice([0, 1])
         spec["dim"] = r.choice([1, 2, 3])
     if kind == "chain":
-        spec["items"] = r.choice(CHAINS)
+        # chains whose first-evaluated layer compares the data against a boundary get extra weight
+        boundary = [c for c in CHAINS if c[0][0] in ("LeakyTanh", "InvLeakyTanh", "Tanh", "VSpline", "InvVSpline") or len(c) == 3]
+        spec["items"] = r.choice(CHAINS + boundary + boundary)
     if kind == "nested_chain":
         spec["first"] = r.choice([[["Affine"]], [["Scale"]], []])
         spec["inner"] = r.choice([[["Affine"], ["Tanh"]], [["TriAffine"], ["Affine"]], [["LeakyTanh", 3.0], ["Scale"]], [["Affine"], ["Flip"], ["Affine"]]])
@@ -133,6 +135,17 @@ CHAINS = [
 
 
 NAMED_WEIGHTED = NAMED + ["VmapMixture", "VmapMixture", "StudentT", "MultivariateNormal", "Exponential", "Uniform", "LogNormal"]
+
+
+LT_CHAINS = [
+    [["LeakyTanh", 3.0], ["AffineId"]],
+    [["LeakyTanh", 1.0], ["AffineId"], ["Flip"]],
+    [["LeakyTanh", 2.0], ["AffineId"]],
+    [["InvLeakyTanh", 3.0], ["AffineId"]],
+    [["Tanh"], ["AffineId"]],
+    [["AffineId"], ["InvTanh"]],
+    [["Affine"], ["LeakyTanh", 3.0], ["AffineId"]],
+]
 
 
 def _named_spec(r, lo, hi, names=NAMED_WEIGHTED):
@@ -262,8 +275,12 @@ def _bucket(prop, tier, seed, idx):
             spec = _flow_spec(r, flows=("maf", "coupling", "planar"), transformers=("spline", "spline", "affine"))
             if _planar_like(spec):
                 spec["invert"] = True
+        elif u < 0.5:
+            # a leaky tanh (or tanh) met by the data right before an exactly-identity parameterised layer:
+            # the only arrangement in which a data coordinate can sit exactly on its +-1 / switch-point boundaries
+            spec = {"kind": "chain", "dim": r.choice([1, 2, 2]), "items": r.choice(LT_CHAINS)}
         elif u < 0.9:
-            spec = _direct_spec(r, ["vspline", "vspline", "chain", "chain", "planar", "affine", "scan_vspline"])
+            spec = _direct_spec(r, ["vspline", "vspline", "vspline", "chain", "chain", "planar", "affine", "scan_vspline"])
         else:
             spec = _named_spec(r, 1e-2, 1e2, names=["Normal", "StudentT", "Cauchy", "Laplace", "Logistic", "Gumbel", "MultivariateNormal", "VmapMixture",
                                                     "MixShiftedLogNormal", "MixShiftedLogNormal", "LogNormal", "Exponential"])
@@ -387,6 +404,16 @@ def _fault_rows(r, w):
         coords = sorted(r.sample(range(dim), r.choice([1, 1, dim])))
         syms = [r.choice(rel) if (rel and r.random() < 0.7) else r.choice(SYMBOLS) for _ in coords]
         rows.append({"pos": r.randrange(n), "coords": coords, "symbols": syms, "knot_index": r.randrange(8)})
+    # place some faults exactly where this model branches: one row on each critical boundary
+    items = [it[0] for it in w["model"].get("items", [])]
+    must = []
+    if any("Tanh" in i for i in items):
+        must += [r.choice(["1", "-1"]), r.choice(["tanh_max_val", "-tanh_max_val", "max_val", "-max_val"])]
+    if knotty or w["model"].get("transformer") == "spline":
+        must += [r.choice(["lo", "hi"]), r.choice(["lo", "knot", "yknot"])]
+    for sym in must:
+        if r.random() < 0.8:
+            rows.append({"pos": r.randrange(n), "coords": [r.randrange(dim)], "symbols": [sym], "knot_index": r.randrange(8)})
     return rows
 
 
